@@ -3,7 +3,7 @@ import json
 import os
 import re
 
-from . import common, ip_checks, jun_checks, iptext_checks
+from . import common, ip_checks, jun_checks, iptext_checks, secret_checks
 from .common import LEAN, VERIF, Infra
 
 TRUSTED_BASE = [
@@ -126,8 +126,51 @@ def _r_c06_dotted():
     return out.endswith(".2.3.4")
 
 
-FINDING_MATCHERS = {"C18-empty-plaintext-short-salt": _m_c18_empty, "C06-v6-dotted-tail": _m_c06_dotted}
-FINDING_REPLAYS = {"C18-empty-plaintext-short-salt": _r_c18_empty, "C06-v6-dotted-tail": _r_c06_dotted}
+def _sec_run(lines, salt="s"):
+    from . import fa
+    return secret_checks.run_lines(fa.FaCfg(salt=salt, pwd=True), [l + "\n" for l in lines])[0]
+
+
+def _r_c07_digit():
+    a, b = _sec_run(["password 12345 foo"]), _sec_run(["password 99887 foo"])
+    return a != b and "12345" in a[0]
+
+
+def _r_c07_reserved():
+    l1, l2 = "enable secret level 15 5 $1$abcd$Q2xSIm9SjN8U1vZ1xD5Ek0", "ip ospf message-digest-key 3 md5 encrypted SECRETSECRET"
+    o = _sec_run([l1, l2])
+    return o[0] == l1 + "\n" or o[1] == l2 + "\n"
+
+
+def _r_c08_two():
+    return _sec_run(["password foo password bar"])[0] == "password netconanRemoved0 password netconanRemoved0\n"
+
+
+def _r_c08_empty9():
+    o = _sec_run(['secret "$9$Q3tI"', 'secret "$9$zabc"'])
+    from .jun_checks import ref_decrypt
+    try:
+        return ref_decrypt(o[0].split('"')[1]) != ref_decrypt(o[1].split('"')[1])
+    except Exception:  # noqa
+        return True
+
+
+def _r_c09_clear():
+    from .jun_checks import ref_encrypt
+    o = _sec_run(['secret "%s"' % ref_encrypt("12345", "Q"), "password 12345"])
+    return not o[1].strip().split(" ")[-1].isdigit()
+
+
+FINDING_MATCHERS = {"C18-empty-plaintext-short-salt": _m_c18_empty, "C06-v6-dotted-tail": _m_c06_dotted,
+                    "C07-digit-secret-followed-by-word": lambda c: c.get("signature") == "digit-secret-followed-by-word",
+                    "C07-reserved-word-captured": lambda c: c.get("signature") == "reserved-word-captured",
+                    "C08-two-secrets-one-line": lambda c: c.get("signature") == "two-secrets-one-line",
+                    "C08-empty-plaintext-juniper": lambda c: c.get("signature") == "empty-plaintext-juniper",
+                    "C09-cleartext-after-juniper": lambda c: c.get("signature") == "cleartext-after-juniper"}
+FINDING_REPLAYS = {"C18-empty-plaintext-short-salt": _r_c18_empty, "C06-v6-dotted-tail": _r_c06_dotted,
+                   "C07-digit-secret-followed-by-word": _r_c07_digit, "C07-reserved-word-captured": _r_c07_reserved,
+                   "C08-two-secrets-one-line": _r_c08_two, "C08-empty-plaintext-juniper": _r_c08_empty9,
+                   "C09-cleartext-after-juniper": _r_c09_clear}
 
 
 def setup():
@@ -164,6 +207,13 @@ JUN_RULE = ("exhaustive: every code point 0..255 at each of the 7 table position
             "characters); every result checked with an independent decoder written after Crypt::Juniper; distinct_nontrivial counts "
             "distinct (position, last code point, salt character) and malformed-shape keys")
 
+SECRET_RULE = ("histories of secret-bearing lines drawn from the committed table of recognised line forms (harness/lineforms.py: ~95 forms, "
+               "13 whole-line scrub forms, 2 AWS forms) x format classes (text, hex, type 7 with all salts, $1$ with salt lengths 1-8, $6$ incl. rounds=, "
+               "$9$ under all 65 salt characters) x enclosing text x 9 netconan salts (empty, outside the Juniper alphabet, Unicode); repeated secrets, "
+               "$9$ re-encodings of one plaintext and its clear text; distinct_nontrivial counts distinct (class, form prefix / secret prefix) keys")
+SECRET_ASSUME = ["passlib's md5_crypt / sha512_crypt are parameters of the model (their real values are substituted by the harness)",
+                 "the 57 secret patterns and 6 format patterns are the pinned CPython parse trees run by the Lean engine (validated by correspondence)"]
+
 PROPS = {
     "C01": ip_prop("C01", [ip_checks.core_scope, ip_checks.file_scope, ip_checks.big_history]),
     "C02": ip_prop("C02", [ip_checks.core_scope, ip_checks.file_scope, ip_checks.cli_scope, ip_checks.big_history, ip_checks.process_history_scope]),
@@ -179,5 +229,14 @@ PROPS = {
                     "and colon-separated tokens with near-miss parts and delimiters; every h::l split shape; realistic multi-token lines; "
                     "distinct_nontrivial counts distinct (family, first 12 characters) keys",
             "assumptions": ["the regular expressions are modelled by the pinned translation (CPython's own parser) run by the Lean engine; engine = _sre is validated by this correspondence, not proved"]},
+    "C07": {"modules": ["Netconan.Props.C07"], "scopes": [secret_checks.corr_scope, secret_checks.c07_scope],
+            "checker_cmd": "cd lean && lake build Netconan.Props.C07 && lake env lean <#print axioms audit>", "rule": SECRET_RULE,
+            "assumptions": SECRET_ASSUME},
+    "C08": {"modules": ["Netconan.Props.C08"], "scopes": [secret_checks.corr_scope, secret_checks.c08_scope],
+            "checker_cmd": "cd lean && lake build Netconan.Props.C08 && lake env lean <#print axioms audit>", "rule": SECRET_RULE,
+            "assumptions": SECRET_ASSUME},
+    "C09": {"modules": ["Netconan.Props.C09"], "scopes": [secret_checks.corr_scope, secret_checks.c09_scope],
+            "checker_cmd": "cd lean && lake build Netconan.Props.C09 && lake env lean <#print axioms audit>", "rule": SECRET_RULE,
+            "assumptions": SECRET_ASSUME},
     "C17": ip_prop("C17", [ip_checks.core_scope, ip_checks.cli_scope, ip_checks.big_history]),
 }
